@@ -79,6 +79,17 @@ def run(ctx):
             shared = isinstance(tnode, (ast.Name, ast.Attribute, ast.Subscript))  # a display / call creates a dictionary nobody else can see
             ok = shared and any(x == table or x == root for x in args)
             ctx.check("C12.R1", f"{f.qualname}: {worker} receives the name table filled by the parse ({table})", ok, f.where(wc), f"{f.qualname}: parse into {table} but {worker}({', '.join(args)[:80]})", "the worker resolves references in a different dictionary than the one the parse filled (e.g. the schema's private __named_schemas copy): references defined in separately parsed pieces are lost")
+    # the table a parsed schema carries along is the very table the parse filled (complete: a definition in it may refer
+    # to further separately parsed types that only the complete table knows)
+    psf = p.func("_schema_py:_parse_schema")
+    tparam = psf.pos_params[5] if len(psf.pos_params) > 5 else "named_schemas"
+    hint_stores = [n for n in walk_local(psf.node) if isinstance(n, ast.Assign) and any(isinstance(t, ast.Subscript) and isinstance(t.slice, ast.Constant) and t.slice.value == "__named_schemas" for t in n.targets)]
+    if not hint_stores:
+        ctx.unrecognised("C12.R1", "_parse_schema: the parsed schema carries its name table", psf.where(), "no store to ['__named_schemas'] found")
+    for n in hint_stores:
+        v = n.value
+        ok = isinstance(v, ast.Name) and v.id == tparam
+        ctx.check("C12.R1", "_parse_schema: the table stored in the parsed schema is the complete table of the parse", ok, psf.where(n), f"_parse_schema: {norm(n)[:90]}", "a parsed schema that carries a restricted or rebuilt table (only the names it mentions itself) cannot resolve what those definitions refer to in turn: a piecewise-parsed chain Parent -> Child -> Grand works as raw schema and fails as parsed one")
     # class-based entry points: GenericWriter / file_reader keep the parse result and the table on the instance
     gw = p.func("_write_py:GenericWriter.__init__")
     ok = any(isinstance(n, ast.Assign) and norm(n) == "self.schema = parse_schema(schema, self._named_schemas)" for n in walk_local(gw.node))
